@@ -14,10 +14,12 @@ git reset -q
 if go build ./... >/dev/null 2>&1; then res="$res build=ok"; else res="$res build=FAIL"; fi
 fails=$(go test -vet=off -count=1 -timeout 25m ./... 2>&1 | grep -c "^FAIL\|^--- FAIL")
 res="$res suite_fail_lines=$fails"
+mkdir -p $pkg
 cp "$demo" $pkg/zz_demo_test.go
 if go test -vet=off -count=1 $extra -run "$run" ./$pkg/ >/tmp/vs-$name.with.log 2>&1; then res="$res demo_with_change=PASS(unexpected)"; else res="$res demo_with_change=fail(expected)"; fi
 rm $pkg/zz_demo_test.go
 git checkout -q -- .
+mkdir -p $pkg
 cp "$demo" $pkg/zz_demo_test.go
 if go test -vet=off -count=1 $extra -run "$run" ./$pkg/ >/tmp/vs-$name.without.log 2>&1; then res="$res demo_without_change=pass(expected)"; else res="$res demo_without_change=FAIL(unexpected)"; fi
 rm $pkg/zz_demo_test.go
